@@ -2,6 +2,7 @@ package main
 
 import (
 	"bytes"
+	"os"
 	"fmt"
 	"go/ast"
 	"go/printer"
@@ -226,3 +227,5 @@ func splitTop(e ast.Expr, op token.Token) []ast.Expr {
 	}
 	return []ast.Expr{e}
 }
+
+func osReadFile(name string) ([]byte, error) { return os.ReadFile(name) }
